@@ -429,6 +429,94 @@ func runC19(c *core.Ctx) core.Meta {
 		}
 	}
 
+	// ---------------- R19.6 expected acknowledgements are counted where requests are queued ----------------
+	st6 := c.Rule("R19.6", "in the driver's migration handshake every increment of an acknowledgement counter (num…ACK) sits in the same basic block as the queueing of the request it stands for, and every page-migration request queued for a command processor has its increment in that block: the stage is left when the counter returns to zero, so a counter that counts per GPU while requests are queued per page reports completion (and restarts the GPUs) before the last page was copied, and underflows afterwards", 4)
+	{
+		pdrv := NewPkgInfo(c, driverPkg)
+		isQueue := func(in ssa.Instruction, field string) bool {
+			st, ok := in.(*ssa.Store)
+			if !ok {
+				return false
+			}
+			f := core.FieldOfAddr(st.Addr)
+			if f == nil || (field != "" && f.Name() != field) || (field == "" && f.Name() != "requestsToSend" && f.Name() != "migrationReqToSendToCP") {
+				return false
+			}
+			return strings.Contains(prov.Of(st.Val), "append(")
+		}
+		ackInc := func(in ssa.Instruction) string {
+			st, ok := in.(*ssa.Store)
+			if !ok {
+				return ""
+			}
+			f := core.FieldOfAddr(st.Addr)
+			if f == nil || !regexp.MustCompile(`^num\w*ACK$`).MatchString(f.Name()) {
+				return ""
+			}
+			if strings.HasSuffix(prov.Of(st.Val), "."+f.Name()+"+1)") {
+				return f.Name()
+			}
+			return ""
+		}
+		// every acknowledgement counter that is decremented is also raised (incremented per request, or set to the number of requests)
+		raised, lowered := map[string]int{}, map[string]int{}
+		pdrv.Instrs(func(fn *ssa.Function, in ssa.Instruction) {
+			st, ok := in.(*ssa.Store)
+			if !ok {
+				return
+			}
+			f := core.FieldOfAddr(st.Addr)
+			if f == nil || !regexp.MustCompile(`^num\w*ACK$`).MatchString(f.Name()) {
+				return
+			}
+			pv := prov.Of(st.Val)
+			switch {
+			case strings.HasSuffix(pv, "."+f.Name()+"-1)"):
+				lowered[f.Name()]++
+			case strings.HasSuffix(pv, "."+f.Name()+"+1)"), strings.Contains(pv, "len("):
+				raised[f.Name()]++
+			}
+		})
+		for _, name := range sortedKeys(lowered) {
+			st6.Instances++
+			ok := raised[name] > 0
+			st6.Ob(ok)
+			if !ok {
+				c.Report(core.Finding{Rule: "R19.6", Pkg: driverPkg, Func: "Driver", Detail: "ack-never-raised:" + name, Msg: name + " is decremented for every acknowledgement but never raised when the requests are queued: the first acknowledgement underflows it and the stage never ends (or ends at once)"})
+			}
+		}
+		pdrv.Instrs(func(fn *ssa.Function, in ssa.Instruction) {
+			if name := ackInc(in); name != "" {
+				st6.Instances++
+				c.MarkAnalysed(fn)
+				ok := false
+				for _, i2 := range in.Block().Instrs {
+					if isQueue(i2, "") {
+						ok = true
+					}
+				}
+				st6.Ob(ok)
+				st6.Sample("%s: %s++ next to the queueing of its request: %v", core.FuncName(fn), name, ok)
+				if !ok {
+					c.ReportAt("R19.6", fn, in.Pos(), "ack-count:"+name, name+" is incremented in a block that queues no request: the number of acknowledgements waited for differs from the number of requests sent (too few: the stage is left, GPUs are restarted and completion is reported while requests are still being served, and the late acknowledgement underflows the counter; too many: the stage never ends)")
+				}
+			}
+			if isQueue(in, "migrationReqToSendToCP") {
+				st6.Instances++
+				ok := false
+				for _, i2 := range in.Block().Instrs {
+					if ackInc(i2) == "numPagesMigratingACK" {
+						ok = true
+					}
+				}
+				st6.Ob(ok)
+				if !ok {
+					c.ReportAt("R19.6", fn, in.Pos(), "queued-without-count:migrationReqToSendToCP", "a page-migration request is queued without incrementing numPagesMigratingACK in the same block: completion is reported before this page was copied")
+				}
+			}
+		})
+	}
+
 	return core.Meta{Level: "other",
 		Explanation: "Structural clauses of page migration decided on SSA of pagemigrationcontroller, the CP control middleware and the driver handshake: back-pressure discipline incl. the retry-list idiom on the PMC's four list-driven send stages, FIELDS/ID threading along the pull→read→reply→write chunk pipeline (cursors advance by the transfer unit, chunk count = page size / unit), completion built only at counter 0 and counter reset, acknowledgement counted once, one migration at a time, stage order of the driver handshake (each stage entered only at its predecessor's counter 0), request fields (old PAddr → new page).",
 		NotDecided:  "byte equality of page contents, page-size divisibility by the transfer unit, memory controller behaviour",
